@@ -11,7 +11,7 @@ use serde_json::{json, Value};
 pub static ENGINE: Engine = Engine {
     prop: "C16",
     level: "exploration",
-    rule: "the real max_clique_gen binary on EVERY edge set over the vertex names {a,b,c} including self-loops (512 graphs; thorough: every loop-free edge set over {a,b,c,d}, 4096 graphs), every edge LIST of <= 3 edges over {a,b,c} (duplicates, both listing orders), the empty file, Windows line endings, and name families {x1, y', _z}, {a, v_a, b} (a vertex named like another vertex's copy) and {a_b, c, a, b_c} (colliding concatenations) ; every undirected graph on five vertices; structured graphs (paths, cycles, stars, complete, wheels, two cliques, bipartite) on 6..8 vertices with one-, two- and three-digit vertex names; x {-u} x {-a}. Oracle: the emitted text is parsed by the reference parser and evaluated by brute force over all assignments (quantifier by enumeration); its models, read as vertex sets with unmentioned vertices unconstrained, must equal the brute-force maximum cliques (all cliques with -a) under the directed / undirected reading; the real `rsbdd -t -f true` on the same text must list the same sets. distinct = distinct (edge list, flags)",
+    rule: "the real max_clique_gen binary on EVERY edge set over the vertex names {a,b,c} including self-loops (512 graphs; thorough: every loop-free edge set over {a,b,c,d}, 4096 graphs), every edge LIST of <= 3 edges over {a,b,c} (duplicates, both listing orders), the empty file, Windows line endings, and name families {x1, y', _z}, {a, v_a, b} (a vertex named like another vertex's copy) and {a_b, c, a, b_c} (colliding concatenations) ; every undirected graph on five vertices; structured graphs (paths, cycles, stars, complete, wheels, two cliques, bipartite) on 6..10 vertices with one-, two- and three-digit vertex names, and graphs on 12..20 vertices (well-formedness, variable set, exact cliques with -a); x {-u} x {-a}. Oracle: the emitted text is parsed by the reference parser and evaluated by brute force over all assignments (quantifier by enumeration); its models, read as vertex sets with unmentioned vertices unconstrained, must equal the brute-force maximum cliques (all cliques with -a) under the directed / undirected reading; the real `rsbdd -t -f true` on the same text must list the same sets. distinct = distinct (edge list, flags)",
     assumptions: &["clique = vertex set whose distinct members are pairwise adjacent; adjacency without -u needs both directions, with -u either", "vertex names are identifiers; graphs of <= 4 vertices"],
     max_shards: 64,
     run,
@@ -144,6 +144,71 @@ fn check_graph_eol(ctx: &mut Ctx, edges: &[(String, String)], u: bool, all: bool
     ctx.sample(|| json!({"edges": csv, "undirected": u, "all": all, "cliques": show(&want)}));
 }
 
+/// graphs too large for the brute-force quantifier: well-formedness and variable set always,
+/// exact model set (all cliques) with -a where no quantifier is involved
+fn check_graph_large(ctx: &mut Ctx, edges: &[(String, String)], u: bool, all: bool) {
+    ctx.begin_case(|| case(edges, u, all));
+    ctx.count("evaluations", 1);
+    ctx.count("large_graphs", 1);
+    ctx.distinct(&(edges, u, all));
+    let key = format!("{TAG} {} edges on {} vertices{}{}", edges.len(), edges.iter().flat_map(|(a, b)| [a, b]).collect::<std::collections::BTreeSet<_>>().len(), if u { " -u" } else { "" }, if all { " -a" } else { "" });
+    let mut verts: Vec<String> = vec![];
+    for (a, b) in edges {
+        for v in [a, b] {
+            if !verts.contains(v) {
+                verts.push(v.clone());
+            }
+        }
+    }
+    let csv: String = edges.iter().map(|(a, b)| format!("{a},{b}\n")).collect();
+    let mut args = vec![];
+    if u {
+        args.push("-u".to_string());
+    }
+    if all {
+        args.push("-a".to_string());
+    }
+    let g = run_bin("max_clique_gen", &args, Some(csv.as_bytes()), &[]);
+    if !g.ok() {
+        ctx.violation(key, format!("max_clique_gen failed: {} {}", g.describe(), g.err_tail()), case(edges, u, all));
+        return;
+    }
+    let ast = match refl::parse(&g.out()) {
+        Ok(a) => a,
+        Err(e) => {
+            ctx.violation(key, format!("the output is not a well-formed formula: {e}"), case(edges, u, all));
+            return;
+        }
+    };
+    let free = ast.free_names();
+    if let Some(x) = free.iter().find(|f| !verts.contains(f)) {
+        ctx.violation(key, format!("the formula has a free variable '{x}' that is not a vertex"), case(edges, u, all));
+        return;
+    }
+    if !all {
+        // every vertex must occur in the final comparison and have a bound copy
+        let names = ast.names();
+        if names.len() != 2 * verts.len() {
+            ctx.violation(key, format!("{} names in the formula, expected the {} vertices and one copy each", names.len(), verts.len()), case(edges, u, all));
+        }
+        return;
+    }
+    let n = verts.len();
+    let has = |x: &String, y: &String| edges.iter().any(|(a, b)| a == x && b == y);
+    let adj: Vec<Vec<bool>> = (0..n).map(|i| (0..n).map(|j| if u { has(&verts[i], &verts[j]) || has(&verts[j], &verts[i]) } else { has(&verts[i], &verts[j]) && has(&verts[j], &verts[i]) }).collect()).collect();
+    for sset in 0..(1usize << n) {
+        let clique = (0..n).all(|i| sset & (1 << i) == 0 || (0..i).all(|j| sset & (1 << j) == 0 || adj[i][j]));
+        let mut env: FxHashMap<String, bool> = FxHashMap::default();
+        for (i, v) in verts.iter().enumerate() {
+            env.insert(v.clone(), sset & (1 << i) != 0);
+        }
+        if eval_total(&ast, &mut env) != clique {
+            ctx.violation(key, format!("vertex set {sset:#b} is {}a clique but the formula says {}", if clique { "" } else { "not " }, !clique), case(edges, u, all));
+            return;
+        }
+    }
+}
+
 fn pairs(names: &[&str], loops: bool) -> Vec<(String, String)> {
     let mut v = vec![];
     for a in names {
@@ -251,9 +316,9 @@ fn run(ctx: &mut Ctx) {
     }
     // structured graphs on 6..8 vertices with one- and two-digit vertex names
     {
-        let name = |i: usize| format!("v{}", [1usize, 10, 11, 2, 100, 3, 12, 20][i]);
+        let name = |i: usize| format!("v{}", [1usize, 10, 11, 2, 100, 3, 12, 20, 21, 4, 101, 5][i]);
         let mut graphs: Vec<(String, Vec<(usize, usize)>)> = vec![];
-        for n in 6..=8usize {
+        for n in [6usize, 7, 8, 9, 10] {
             graphs.push((format!("path{n}"), (0..n - 1).map(|i| (i, i + 1)).collect()));
             graphs.push((format!("cycle{n}"), (0..n).map(|i| (i, (i + 1) % n)).collect()));
             graphs.push((format!("star{n}"), (1..n).map(|i| (0, i)).collect()));
@@ -267,6 +332,18 @@ fn run(ctx: &mut Ctx) {
             go(ctx, &edges, false);
         }
     }
+    // 12..20 vertices: the emitted text must at least be a well-formed formula over the right
+    // variables (all four flag sets); with -a (no quantifier) the models are checked exactly
+    let mut idx2 = 1u64 << 40;
+    for n in [12usize, 16, 20] {
+        let edges: Vec<(String, String)> = (0..n).map(|i| (format!("w{i}"), format!("w{}", (i + 1) % n))).chain((0..n / 2).map(|i| (format!("w{}", i + n / 2), format!("w{i}")))).collect();
+        for (u, all) in [(true, true), (true, false), (false, false), (false, true)] {
+            idx2 += 1;
+            if ctx.mine(idx2) {
+                check_graph_large(ctx, &edges, u, all);
+            }
+        }
+    }
     if th {
         let p4 = pairs(&["a", "b", "c", "d"], false);
         for mask in 0..(1usize << p4.len()) {
@@ -278,5 +355,10 @@ fn run(ctx: &mut Ctx) {
 
 fn replay(ctx: &mut Ctx, c: &Value) {
     let edges: Vec<(String, String)> = c["edges"].as_array().map(|a| a.iter().map(|e| (e[0].as_str().unwrap_or("").to_string(), e[1].as_str().unwrap_or("").to_string())).collect()).unwrap_or_default();
+    let nv = edges.iter().flat_map(|(a, b)| [a, b]).collect::<std::collections::BTreeSet<_>>().len();
+    if nv > 10 {
+        check_graph_large(ctx, &edges, c["undirected"].as_bool().unwrap_or(false), c["all"].as_bool().unwrap_or(false));
+        return;
+    }
     check_graph(ctx, &edges, c["undirected"].as_bool().unwrap_or(false), c["all"].as_bool().unwrap_or(false), true);
 }
